@@ -361,7 +361,7 @@ def callee_label(t):
 
 def render(t, depth=0):
     """Human/regex-friendly label of a stripped term."""
-    if depth > 12:
+    if depth > 40:
         return "…"
     t = strip(t)
     k = t[0]
